@@ -25,12 +25,60 @@ func raceErrors() int { return runtime.RaceErrors() }
 //go:norace
 func raceJoin() { runtime.RaceAcquire(unsafe.Pointer(&joinTok)) }
 
+// raceGo runs f on a pooled goroutine. Under the race detector every goroutine ever created
+// costs memory that is not given back (several KB each; a long exploration creates hundreds
+// of millions), so model threads are run by a fixed pool of worker goroutines. The hand-over
+// to a worker is hidden from the detector and replaced by the edge a `go` statement has:
+// everything the spawner did happens-before the thread's first step.
+//
 //go:norace
 func raceGo(f func()) {
-	go func() {
-		defer runtime.RaceReleaseMerge(unsafe.Pointer(&joinTok))
+	var w *poolWorker
+	runtime.RaceDisable()
+	poolMu <- struct{}{}
+	if n := len(idle); n > 0 {
+		w = idle[n-1]
+		idle = idle[:n-1]
+	}
+	<-poolMu
+	runtime.RaceEnable()
+	if w == nil {
+		w = &poolWorker{work: make(chan func(), 1)}
+		go w.loop()
+	}
+	runtime.RaceReleaseMerge(unsafe.Pointer(&w.tok))
+	runtime.RaceDisable()
+	w.work <- f
+	runtime.RaceEnable()
+}
+
+type poolWorker struct {
+	work chan func()
+	tok  int
+}
+
+// idle is only touched while no two model threads run (spawn happens on the running thread,
+// return to the pool under poolMu).
+var (
+	idle   []*poolWorker
+	poolMu chan struct{} = make(chan struct{}, 1)
+)
+
+//go:norace
+func (w *poolWorker) loop() {
+	for {
+		runtime.RaceDisable()
+		f := <-w.work
+		runtime.RaceEnable()
+		runtime.RaceAcquire(unsafe.Pointer(&w.tok))
 		f()
-	}()
+		runtime.RaceReleaseMerge(unsafe.Pointer(&joinTok))
+		runtime.RaceDisable()
+		poolMu <- struct{}{}
+		idle = append(idle, w)
+		<-poolMu
+		runtime.RaceEnable()
+	}
 }
 
 // RaceRelease / RaceAcquire declare a happens-before edge that the model
